@@ -87,33 +87,41 @@ def confirm(d):
 
 
 def check(d, all_props=False):
+    """Runs the registered quick check(s) against the library with the seeded change applied.  The change is
+    applied to a scratch copy of /repo's working tree (outside /repo and /verif) and the check is pointed at it
+    with VERIF_REPO, which is what `git -C /repo apply` + check + `git checkout -- .` would verify, without
+    disturbing /repo while other work reads it."""
     m = load_meta(d)
     prop = m.get("property") or os.path.basename(d.rstrip("/")).split("_")[0]
     prop = prop.split()[0].strip(",")
+    if not prop.startswith("C") or len(prop) > 4:
+        prop = os.path.basename(d.rstrip("/")).split("_")[0]
     patch = os.path.abspath(os.path.join(d, "patch.diff"))
-    rc, out = sh("git -C %s status --porcelain" % REPO)
-    if out.strip():
-        raise SystemExit("/repo is not clean: %s" % out)
-    rc, out = sh("git -C %s apply %s" % (REPO, patch))
+    scratch = "/tmp/seedchk_wt"
+    shutil.rmtree(scratch, ignore_errors=True)
+    os.makedirs(scratch)
+    shutil.copytree(os.path.join(REPO, "src"), os.path.join(scratch, "src"))
+    sh("git init -q", cwd=scratch)
+    rc, out = sh("git apply --unsafe-paths %s" % patch, cwd=scratch)
     res = {}
     if rc:
         res["applies"] = False
         res["error"] = out[-500:]
     else:
-        try:
-            man = json.load(open("/verif/MANIFEST.json"))
-            props = [c["property_id"] for c in man["checks"]] if all_props else [prop]
-            res["runs"] = {}
-            for p in props:
-                if p not in [c["property_id"] for c in man["checks"]]:
-                    res["runs"][p] = "not claimed"
-                    continue
-                t0 = time.time()
-                rc, out = sh("python3 vx/check.py --property %s --tier quick" % p, cwd="/verif", timeout=3600)
-                lines = [l for l in out.split("\n") if l.startswith(("VIOLATION", "UNDECIDED", "KNOWN-FINDING", "property "))]
-                res["runs"][p] = {"exit": rc, "lines": [l[:400] for l in lines][:8], "wall_s": round(time.time() - t0, 1)}
-        finally:
-            sh("git -C %s checkout -- ." % REPO)
+        man = json.load(open("/verif/MANIFEST.json"))
+        claimed = [c["property_id"] for c in man["checks"]]
+        props = claimed if all_props else [prop]
+        res["runs"] = {}
+        for p in props:
+            if p not in claimed:
+                res["runs"][p] = "not claimed"
+                continue
+            t0 = time.time()
+            rc, out = sh("python3 vx/check.py --property %s --tier quick" % p, cwd="/verif", timeout=3600, env={"VERIF_REPO": scratch})
+            lines = [l for l in out.split("\n") if l.startswith(("VIOLATION", "UNDECIDED", "KNOWN-FINDING", "property "))]
+            res["runs"][p] = {"exit": rc, "lines": [l[:400] for l in lines][:8], "wall_s": round(time.time() - t0, 1)}
+        res["detected"] = any(isinstance(r, dict) and r["exit"] == 1 for r in res["runs"].values())
+    shutil.rmtree(scratch, ignore_errors=True)
     m.setdefault("detection", {})[subprocess.check_output(["git", "-C", "/verif", "rev-parse", "--short", "HEAD"], text=True).strip()] = res
     save_meta(d, m)
     return res
